@@ -29,4 +29,6 @@ TEXTS = {
     "C12": {"technique": "runtime monitoring under a deterministic thread scheduler (sys.monitoring LINE events, token passing): single-preemption sweep, sampled two-preemption, PCT and random schedules; per-call comparison with a single-threaded run",
             "level": "exploration of schedules: every single-preemption point of the recursive scenarios (stride 4 in quick), sampled beyond: " + _EXPL,
             "note": "statement granularity inside the retort files only; locks found in those modules are made scheduling points from the harness, unknown locks fall back to a 200 ms no-progress inference"},
+    "C08": {"technique": "runtime monitoring: constructor call log of instrumented models + comparison with the model's own construction (type-strict), signature binding of every logged call, factory call counting",
+            "level": "exploration: " + _EXPL, "note": "field types are Any so that loaded values are the input values; optional positional-only parameters are excluded (adaptix documents their refusal)"},
 }
